@@ -93,7 +93,7 @@ fn row_ptr(t: &Table, p: usize, v: usize) -> *const __m128i {
     unsafe { t.0.as_ptr().add(4096 * p + 16 * v) as *const __m128i }
 }
 
-//@ harness name=kuz_leaf_rows prop=C07,C20 tier=thorough bits=12 est=1500 desc="L: every row of the fused tables, read with _mm_load_si128 at &T[4096 p + 16 v]: ENC_TABLE row == L(pi(v) at octet p, 0 elsewhere) and DEC_TABLE row == L^-1(pi^-1(v) at octet p, 0 elsewhere), position p and octet v symbolic (all 2 x 4096 rows)"
+//@ harness name=kuz_leaf_rows prop=C07,C20 tier=thorough bits=12 est=644 desc="L: every row of the fused tables, read with _mm_load_si128 at &T[4096 p + 16 v]: ENC_TABLE row == L(pi(v) at octet p, 0 elsewhere) and DEC_TABLE row == L^-1(pi^-1(v) at octet p, 0 elsewhere), position p and octet v symbolic (all 2 x 4096 rows)"
 verif_harness! {
     name: kuz_leaf_rows,
     bytes: 2,
@@ -162,7 +162,7 @@ verif_harness! {
     stubs: [(crate::sse2::backends::transform, stub_transform), (crate::sse2::backends::sub_bytes, stub_sub_bytes)],
     prop: |inp| { k::w_enc_rk(inp, Route::Enc) }
 }
-//@ harness name=kuz_sse2_enc_rk_clone prop=C12,C20 tier=thorough bits=1408 stub=1 est=60 desc="W: clone of a KuznyechikEnc: encrypt_block == oracle E, all round keys, all blocks"
+//@ harness name=kuz_sse2_enc_rk_clone prop=C12,C20 tier=thorough bits=1408 stub=1 est=27 desc="W: clone of a KuznyechikEnc: encrypt_block == oracle E, all round keys, all blocks"
 verif_harness! {
     name: kuz_sse2_enc_rk_clone,
     bytes: 160 + 16,
@@ -170,7 +170,7 @@ verif_harness! {
     stubs: [(crate::sse2::backends::transform, stub_transform), (crate::sse2::backends::sub_bytes, stub_sub_bytes)],
     prop: |inp| { k::w_enc_rk(inp, Route::EncClone) }
 }
-//@ harness name=kuz_sse2_enc_rk_val prop=C12,C03,C20 tier=thorough bits=1408 stub=1 est=60 desc="W: Kuznyechik::from(enc) (by value; runs the real inv_enc_keys too): encrypt_block == oracle E, all round keys, all blocks"
+//@ harness name=kuz_sse2_enc_rk_val prop=C12,C03,C20 tier=thorough bits=1408 stub=1 est=50 desc="W: Kuznyechik::from(enc) (by value; runs the real inv_enc_keys too): encrypt_block == oracle E, all round keys, all blocks"
 verif_harness! {
     name: kuz_sse2_enc_rk_val,
     bytes: 160 + 16,
@@ -178,7 +178,7 @@ verif_harness! {
     stubs: [(crate::sse2::backends::transform, stub_transform), (crate::sse2::backends::sub_bytes, stub_sub_bytes)],
     prop: |inp| { k::w_enc_rk(inp, Route::Val) }
 }
-//@ harness name=kuz_sse2_enc_rk_ref prop=C12,C03,C20 tier=quick bits=1408 stub=1 est=60 desc="W: Kuznyechik::from(&enc) (by reference): encrypt_block == oracle E, all round keys, all blocks"
+//@ harness name=kuz_sse2_enc_rk_ref prop=C12,C03,C20 tier=quick bits=1408 stub=1 est=85 desc="W: Kuznyechik::from(&enc) (by reference): encrypt_block == oracle E, all round keys, all blocks"
 verif_harness! {
     name: kuz_sse2_enc_rk_ref,
     bytes: 160 + 16,
@@ -186,7 +186,7 @@ verif_harness! {
     stubs: [(crate::sse2::backends::transform, stub_transform), (crate::sse2::backends::sub_bytes, stub_sub_bytes)],
     prop: |inp| { k::w_enc_rk(inp, Route::Ref) }
 }
-//@ harness name=kuz_sse2_enc_rk_refclone prop=C12,C20 tier=thorough bits=1408 stub=1 est=60 desc="W: Kuznyechik::from(&enc).clone(): encrypt_block == oracle E, all round keys, all blocks"
+//@ harness name=kuz_sse2_enc_rk_refclone prop=C12,C20 tier=thorough bits=1408 stub=1 est=50 desc="W: Kuznyechik::from(&enc).clone(): encrypt_block == oracle E, all round keys, all blocks"
 verif_harness! {
     name: kuz_sse2_enc_rk_refclone,
     bytes: 160 + 16,
@@ -194,7 +194,7 @@ verif_harness! {
     stubs: [(crate::sse2::backends::transform, stub_transform), (crate::sse2::backends::sub_bytes, stub_sub_bytes)],
     prop: |inp| { k::w_enc_rk(inp, Route::RefClone) }
 }
-//@ harness name=kuz_sse2_par4 prop=C04,C20 tier=quick bits=1792 stub=1 est=100 desc="W: KuznyechikEnc::encrypt_blocks on 4 blocks (exactly one 4-wide encrypt_par_blocks batch of the sse2 back end) == four encrypt_block calls on the same instance, all four output blocks; arbitrary round keys, all block contents"
+//@ harness name=kuz_sse2_par4 prop=C04,C20 tier=quick bits=1792 stub=1 est=217 need=8 desc="W: KuznyechikEnc::encrypt_blocks on 4 blocks (exactly one 4-wide encrypt_par_blocks batch of the sse2 back end) == four encrypt_block calls on the same instance, all four output blocks; arbitrary round keys, all block contents"
 verif_harness! {
     name: kuz_sse2_par4,
     bytes: 160 + 64,
@@ -202,7 +202,7 @@ verif_harness! {
     stubs: [(crate::sse2::backends::transform, stub_transform), (crate::sse2::backends::sub_bytes, stub_sub_bytes)],
     prop: |inp| { k::w_par_enc::<4>(inp) }
 }
-//@ harness name=kuz_sse2_par5 prop=C04,C20 tier=thorough bits=1920 stub=1 est=150 desc="W: KuznyechikEnc::encrypt_blocks on 5 blocks (one 4-wide batch + a tail of one) == five encrypt_block calls; arbitrary round keys, all block contents"
+//@ harness name=kuz_sse2_par5 prop=C04,C20 tier=thorough bits=1920 stub=1 est=469 need=10 desc="W: KuznyechikEnc::encrypt_blocks on 5 blocks (one 4-wide batch + a tail of one) == five encrypt_block calls; arbitrary round keys, all block contents"
 verif_harness! {
     name: kuz_sse2_par5,
     bytes: 160 + 80,
@@ -224,7 +224,7 @@ verif_harness! {
     stubs: [(crate::sse2::backends::transform, stub_transform), (crate::sse2::backends::sub_bytes, stub_sub_bytes)],
     prop: |inp| { k::w_dec_rk(inp, Route::Val, false, true) }
 }
-//@ harness name=kuz_sse2_dec_rk_ref prop=C12,C07,C03,C20 tier=quick bits=1408 stub=1 est=250 desc="W: KuznyechikDec::from(&enc) (by reference): decrypt_block == oracle D, all round keys, all blocks (linearity instances of L^-1 assumed, lemma kuz_lin_linv)"
+//@ harness name=kuz_sse2_dec_rk_ref prop=C12,C07,C03,C20 tier=quick bits=1408 stub=1 est=162 desc="W: KuznyechikDec::from(&enc) (by reference): decrypt_block == oracle D, all round keys, all blocks (linearity instances of L^-1 assumed, lemma kuz_lin_linv)"
 verif_harness! {
     name: kuz_sse2_dec_rk_ref,
     bytes: 160 + 16,
@@ -232,7 +232,7 @@ verif_harness! {
     stubs: [(crate::sse2::backends::transform, stub_transform), (crate::sse2::backends::sub_bytes, stub_sub_bytes)],
     prop: |inp| { k::w_dec_rk(inp, Route::Ref, false, true) }
 }
-//@ harness name=kuz_sse2_dec_rk_refclone prop=C12,C20 tier=thorough bits=1408 stub=1 est=250 desc="W: KuznyechikDec::from(&enc).clone(): decrypt_block == oracle D, all round keys, all blocks (linearity instances of L^-1 assumed, lemma kuz_lin_linv)"
+//@ harness name=kuz_sse2_dec_rk_refclone prop=C12,C20 tier=thorough bits=1408 stub=1 est=217 desc="W: KuznyechikDec::from(&enc).clone(): decrypt_block == oracle D, all round keys, all blocks (linearity instances of L^-1 assumed, lemma kuz_lin_linv)"
 verif_harness! {
     name: kuz_sse2_dec_rk_refclone,
     bytes: 160 + 16,
@@ -240,7 +240,7 @@ verif_harness! {
     stubs: [(crate::sse2::backends::transform, stub_transform), (crate::sse2::backends::sub_bytes, stub_sub_bytes)],
     prop: |inp| { k::w_dec_rk(inp, Route::RefClone, false, true) }
 }
-//@ harness name=kuz_sse2_both_dec_rk_val prop=C07,C03,C12,C20 tier=thorough bits=1408 stub=1 est=250 desc="W: Kuznyechik::from(enc) (by value): decrypt_block == oracle D, all round keys, all blocks (linearity instances of L^-1 assumed, lemma kuz_lin_linv)"
+//@ harness name=kuz_sse2_both_dec_rk_val prop=C07,C03,C12,C20 tier=thorough bits=1408 stub=1 est=161 desc="W: Kuznyechik::from(enc) (by value): decrypt_block == oracle D, all round keys, all blocks (linearity instances of L^-1 assumed, lemma kuz_lin_linv)"
 verif_harness! {
     name: kuz_sse2_both_dec_rk_val,
     bytes: 160 + 16,
@@ -248,7 +248,7 @@ verif_harness! {
     stubs: [(crate::sse2::backends::transform, stub_transform), (crate::sse2::backends::sub_bytes, stub_sub_bytes)],
     prop: |inp| { k::w_dec_rk(inp, Route::Val, true, true) }
 }
-//@ harness name=kuz_sse2_both_dec_rk_ref prop=C12,C07,C03,C20 tier=quick bits=1408 stub=1 est=250 desc="W: Kuznyechik::from(&enc) (by reference): decrypt_block == oracle D, all round keys, all blocks (linearity instances of L^-1 assumed, lemma kuz_lin_linv)"
+//@ harness name=kuz_sse2_both_dec_rk_ref prop=C12,C07,C03,C20 tier=quick bits=1408 stub=1 est=184 desc="W: Kuznyechik::from(&enc) (by reference): decrypt_block == oracle D, all round keys, all blocks (linearity instances of L^-1 assumed, lemma kuz_lin_linv)"
 verif_harness! {
     name: kuz_sse2_both_dec_rk_ref,
     bytes: 160 + 16,
@@ -256,7 +256,7 @@ verif_harness! {
     stubs: [(crate::sse2::backends::transform, stub_transform), (crate::sse2::backends::sub_bytes, stub_sub_bytes)],
     prop: |inp| { k::w_dec_rk(inp, Route::Ref, true, true) }
 }
-//@ harness name=kuz_sse2_both_dec_rk_refclone prop=C12,C20 tier=thorough bits=1408 stub=1 est=250 desc="W: Kuznyechik::from(&enc).clone(): decrypt_block == oracle D, all round keys, all blocks (linearity instances of L^-1 assumed, lemma kuz_lin_linv)"
+//@ harness name=kuz_sse2_both_dec_rk_refclone prop=C12,C20 tier=thorough bits=1408 stub=1 est=156 desc="W: Kuznyechik::from(&enc).clone(): decrypt_block == oracle D, all round keys, all blocks (linearity instances of L^-1 assumed, lemma kuz_lin_linv)"
 verif_harness! {
     name: kuz_sse2_both_dec_rk_refclone,
     bytes: 160 + 16,
@@ -267,7 +267,7 @@ verif_harness! {
 
 // ---------------------------------------------------------------------------------------------------------- round trips
 
-//@ harness name=kuz_sse2_rt_enc_dec prop=C01,C20 tier=thorough bits=1408 stub=1 est=250 desc="W: KuznyechikEnc encrypts, KuznyechikDec::from(&enc) decrypts: result == b, arbitrary round keys, all blocks (S, L uninterpreted inverse pairs) (linearity instances of L^-1 assumed, lemma kuz_lin_linv)"
+//@ harness name=kuz_sse2_rt_enc_dec prop=C01,C20 tier=thorough bits=1408 stub=1 est=179 desc="W: KuznyechikEnc encrypts, KuznyechikDec::from(&enc) decrypts: result == b, arbitrary round keys, all blocks (S, L uninterpreted inverse pairs) (linearity instances of L^-1 assumed, lemma kuz_lin_linv)"
 verif_harness! {
     name: kuz_sse2_rt_enc_dec,
     bytes: 160 + 16,
@@ -283,7 +283,7 @@ verif_harness! {
     stubs: [(crate::sse2::backends::transform, stub_transform), (crate::sse2::backends::sub_bytes, stub_sub_bytes)],
     prop: |inp| { k::w_roundtrip_rk(inp, 1, true) }
 }
-//@ harness name=kuz_sse2_rt_de prop=C01,C20 tier=thorough bits=1408 stub=1 est=250 desc="W: Kuznyechik::from(&enc): enc(dec(b)) == b, arbitrary round keys, all blocks (S, L uninterpreted inverse pairs) (linearity instances of L^-1 assumed, lemma kuz_lin_linv)"
+//@ harness name=kuz_sse2_rt_de prop=C01,C20 tier=thorough bits=1408 stub=1 est=194 desc="W: Kuznyechik::from(&enc): enc(dec(b)) == b, arbitrary round keys, all blocks (S, L uninterpreted inverse pairs) (linearity instances of L^-1 assumed, lemma kuz_lin_linv)"
 verif_harness! {
     name: kuz_sse2_rt_de,
     bytes: 160 + 16,
